@@ -117,6 +117,15 @@ Theorem C03_disconnect : forall s c,
 Proof. exact reach_disconnected_owns_nothing. Qed.
 Print Assumptions C03_disconnect.
 
+Theorem C03_disconnect_step : forall s i c s' out,
+  reachable s -> legal s i -> i_ev i = ConnectionShutdown c ->
+  step s (ConnectionShutdown c) (i_fresh i) (i_bserial i) = Done (s', out) ->
+  conns s' !! c = None /\
+  (forall u o, objs s' !! u = Some o -> o_owner o <> c) /\
+  (forall ou su sv o, svcs s' !! (ou, su) = Some sv -> objs s' !! ou = Some o -> o_owner o <> c).
+Proof. exact disconnect_step. Qed.
+Print Assumptions C03_disconnect_step.
+
 (* queries about a service succeed exactly while it is live (C03_unique_cookies says that
    svc_by_cookie finds a service iff one with that cookie is live) *)
 Theorem C03_query_version : forall s c cs serial ck f b,
